@@ -1685,9 +1685,7 @@ DIGITS:
 			switch l.src[p] {
 			case 'e', 'E':
 				if base == 16 {
-					if dot {
-						return l.errorf("hexadecimal mantissa requires a 'p' exponent")
-					}
+					// It is a digit of the mantissa.
 					break
 				}
 				if base == 8 && !is0o {
